@@ -57,14 +57,14 @@ def tasks(tier, seed):
             elif wrapper:
                 T = 100
             else:
-                T = 60 if tier == "quick" else 150
+                T = 60 if tier == "quick" else 100  # never beyond the declared budget (StoSOO loops forever past it)
             ts.append({"kind": "algo", "label": "dev/%s/%s/%s" % (label, cfg["part"], base), "cfg": cfg, "mode": "dev",
                        "T": T, "R": [1.0, -1.0] if wrapper else list(configs.R3), "base": base,
                        "k": 1 if (tier == "quick" or vroom or wrapper) else 2,
                        "max_exec": 2500 if tier == "quick" else 50000})
     for n in (600, 1000):
         cfg = configs.cfg("StroquOOL", "Binary", None, configs.BOXES["u1"], n=n)
-        ts.append({"kind": "algo", "label": "dev/StroquOOL%d" % n, "cfg": cfg, "mode": "dev", "T": 60 if tier == "quick" else 150,
+        ts.append({"kind": "algo", "label": "dev/StroquOOL%d" % n, "cfg": cfg, "mode": "dev", "T": 60 if tier == "quick" else 100,
                    "R": list(configs.R3), "base": "peak", "k": 1, "max_exec": 3000 if tier == "quick" else 60000})
     return ts
 
